@@ -437,7 +437,7 @@ def run(ctx):
         n = c['names_all'][c['col']]
         if not is_ident(n) or e[0].get('has_header'):
             ctx.nontriv((c['src'], tuple(c['names_all']), c['col'], c['style'], c['flag'], c['mod']))
-    ctx.sample({'case': {k: cases[0][k] for k in ('src', 'queries', 'records', 'flag', 'mod')}, 'model': expc[0], 'implementation': got[0]})
+    ctx.sample_safe(lambda: {'case': {k: cases[0][k] for k in ('src', 'queries', 'records', 'flag', 'mod')}, 'model': expc[0], 'implementation': got[0]})
     # ---- JavaScript leg (rbql-js/rbql.js is an anchor too): list sources through rbql-js query_table, same expectations.
     # The common ground: a header is given, the probe is written a["..."] / a['...'] / a.name / bare (the escape of a name is the
     # same text in both ports for the two quote characters), no WITH modifier (parsed by different regexes in the two ports)
